@@ -9,9 +9,10 @@ THEOREM_FILE = "Props/C10.v"
 HARNESS_ENV = {"VERIF_WATCHDOG_MS": "30000"}
 PER_SHARD = 40
 LEVEL_TEXT = ("Coq theorems over a Gallina model of DnsRecordExt::matches / suppressed_by_answer, DnsOutgoing::add_answer / "
-              "add_answer_with_additionals, DnsCache::get_known_answers and DnsRecord::update_ttl: suppression iff same "
-              "record and 2*listed TTL > own TTL (integer division characterised exactly), an answer is dropped iff some "
-              "known answer suppresses it, a suppressed PTR takes all its additionals along, the known-answer list of a "
+              "add_answer_with_additionals, add_answer_of_service, DnsCache::get_known_answers and DnsRecord::update_ttl: "
+              "suppression iff same record (owner, type, class, RDATA; cache-flush bit ignored) and 2*listed TTL > own TTL "
+              "(integer division characterised exactly), the whole response to any query = every unsuppressed answer with "
+              "its additionals and nothing of a suppressed one (subtype PTR, SRV, TXT, addresses), the known-answer list of a "
               "query is exactly the shared records within their first half of life with TTL = remaining whole seconds "
               "(no u32 underflow). Tied to the Rust by regenerated parameters, by comparison with real record objects (K3) "
               "and with the real daemon in the simulated world on both sides (K6), with the statements run as monitors")
@@ -21,7 +22,8 @@ LEVELS = ("K3 (real record objects through the facade: rel = matches, rrdata_mat
           "querier's own browse / resolve / refresh queries)")
 RULE = ("record pairs of all six record kinds differing in exactly one aspect (name, case, class, flush bit, RDATA, interface, "
         "kind, type, new name, creation time) or in none, TTL pairs at 0, 1, half-1, half, half+1, ceil(half), full, 2^32-1; "
-        "responder histories: 1-2 registered services, queries (PTR, SRV, TXT, A, ANY and two-question forms) carrying subsets "
+        "responder histories: 1-2 registered services with and without a subtype, queries (type PTR, subtype PTR, SRV, TXT, A, ANY "
+        "and two-question forms such as PTR+TXT where a suppressed PTR leaves another answer) carrying subsets "
         "of the responder's records as known answers, mutated and with TTLs on both sides of half; querier histories: the "
         "answer section of every PTR/SRV/TXT/A/AAAA query the daemon sends while records of all ages 0-100 % are cached; a case "
         "is non-trivial when not SKIP and with at least one observation; distinct = distinct case lines")
@@ -57,6 +59,7 @@ def generate(rng, tier):
         cases.append(L.case_of(L.gen_ptr(rng, "ptr%d" % k), "sim-ptr"))
         cases.append(L.case_of(L.gen_svc(rng, "svc%d" % k), "sim-svc"))
         cases.append(L.case_of(L.gen_mix(rng, "mix%d" % k), "sim-mix"))
+        cases.append(L.case_of(L.gen_renew(rng, "renew%d" % k), "sim-renew"))
     return cases
 
 
@@ -81,35 +84,11 @@ def nontrivial(line, result):
 
 
 def known_class(line, impl_result, monitor_result):
-    """Maps a monitor rejection to a listed finding; exactly the classes the monitor itself
-    decides (extracted classification functions), nothing broader."""
-    if line.startswith("rel "):
-        # record level: same owner/type/class/RDATA(/interface), TTL above half, flush bits differ
-        a, b = line.split(" ")[1:3]
-        fa, fb = a.split("/")[4], b.split("/")[4]
-        ca, cb = int(a.split("/")[3]), int(b.split("/")[3])
-        flush_a = fa == "1" or ca & 0x8000
-        flush_b = fb == "1" or cb & 0x8000
-        # matches = 0 (so the monitor's `matches implies rrdata_match` part holds), suppressed = 0:
-        # the rejection can only be "same record, TTL above half, not suppressed"
-        if monitor_result.startswith("FAIL suppression differs") and bool(flush_a) != bool(flush_b) \
-                and impl_result in ("OK 0 1 0", "OK 0 0 0"):
-            return "C10-ka-flush-bit"
-        return None
-    # simulated-daemon cases: the monitor names the deviation(s) that explain the rejection
-    # (extracted classification functions); any unexplained part keeps it a new violation
-    import re
-    m = re.match(r"FAIL((?:\[[a-z+-]+\])+) ", monitor_result)
-    if not m:
-        return None
-    tags = set()
-    for t in re.findall(r"\[([a-z+-]+)\]", m.group(1)):
-        tags.update(t.split("+"))
-    if not tags or not tags <= {"ka-flush-bit", "srv-additionals-kept", "ka-shortened-record"}:
-        return None
-    for t in ("ka-flush-bit", "srv-additionals-kept", "ka-shortened-record"):
-        if t in tags:
-            return "C10-" + t
+    """Maps a monitor rejection to the listed finding that stays; exactly the class the monitor
+    itself decides with the extracted spec_run_created_ka (the observation equals the
+    specification run with the code's created-based half-life rule), nothing broader."""
+    if line.startswith("lsim ") and monitor_result.startswith("FAIL[ka-shortened-record] "):
+        return "C10-ka-shortened-record"
     return None
 
 
